@@ -926,3 +926,98 @@ class HostileCaller:
             return mine
 
         return call
+
+
+# ------------------------------------------------------------------ ambient state (round 14)
+AMBIENT_STATS = {"calls_repeated_under_another_ambient_state": 0,
+                 "calls_that_raised_under_another_ambient_state": 0}
+AMBIENT_KINDS = ("errstate-raise", "warnings-as-errors", "print-options", "gc-off", "other-cwd",
+                 "low-recursion-limit")
+
+
+def ambient(kind: str):
+    """Context manager: process-global state a caller may legitimately have set."""
+    import contextlib
+    import gc
+    import os
+    import sys
+    import tempfile
+    import warnings
+
+    @contextlib.contextmanager
+    def cm():
+        if kind == "errstate-raise":
+            with np.errstate(all="raise"):
+                yield
+        elif kind == "warnings-as-errors":
+            with warnings.catch_warnings():
+                warnings.simplefilter("error")
+                yield
+        elif kind == "print-options":
+            import pandas as pd
+
+            old = np.get_printoptions()
+            np.set_printoptions(precision=2, threshold=4, suppress=True, floatmode="fixed")
+            try:
+                with pd.option_context("display.precision", 2, "display.max_rows", 4):
+                    yield
+            finally:
+                np.set_printoptions(**old)
+        elif kind == "gc-off":
+            was = gc.isenabled()
+            gc.disable()
+            try:
+                yield
+            finally:
+                if was:
+                    gc.enable()
+        elif kind == "other-cwd":
+            old = os.getcwd()
+            d = tempfile.mkdtemp(prefix="rv-cwd-")
+            os.chdir(d)
+            try:
+                yield
+            finally:
+                os.chdir(old)
+                try:
+                    os.rmdir(d)
+                except OSError:
+                    pass
+        elif kind == "low-recursion-limit":
+            old = sys.getrecursionlimit()
+            depth = len(__import__("inspect").stack(0))
+            sys.setrecursionlimit(depth + 120)
+            try:
+                yield
+            finally:
+                sys.setrecursionlimit(old)
+        else:
+            yield
+
+    return cm()
+
+
+def same_under_ambient(op, kinds=AMBIENT_KINDS, pick=None):
+    """``op()`` under the default ambient state and again under other process-global states a
+    caller may have set (numpy error state, warnings as errors, print options, garbage collector
+    off, another working directory, a low recursion limit): whenever the call *returns*, it returns
+    the same thing.  A call that raises under the other state is counted, not judged (with
+    warnings turned into errors or numpy told to raise, a raise can be what the caller asked for).
+    Returns None or a description."""
+    try:
+        ref = op()
+    except Exception:
+        return None
+    todo = kinds if pick is None else [kinds[pick % len(kinds)]]
+    for kind in todo:
+        AMBIENT_STATS["calls_repeated_under_another_ambient_state"] += 1
+        try:
+            with ambient(kind):
+                got = op()
+        except Exception:
+            AMBIENT_STATS["calls_that_raised_under_another_ambient_state"] += 1
+            continue
+        r = _same(ref, got)
+        if r:
+            return f"under ambient state '{kind}': {r}"
+    return None
